@@ -139,11 +139,32 @@ class ScriptedPeer:
         sp = dict(spec or {})
         sp.update(t=str(msgtype), seq=seq, pd=bool(possdup))
         ev = self.send_raw(frame, sp)
-        ent = dict(evno=ev, frame=frame, seq=seq, type=str(msgtype), pd=bool(possdup), spec=sp, body=list(body))
+        ent = dict(evno=ev, frame=frame, seq=seq, type=str(msgtype), pd=bool(possdup), spec=sp, body=list(body),
+                   conn=self.n_connections)
         self.sent.append(ent)
         if count and seq is not None and isinstance(seq, int) and seq >= self.next_out and not possdup:
             self.next_out = seq + 1
         return ent
+
+    def send_many(self, items, spec=None):
+        """Several frames in ONE transport write (they reach the endpoint in the same read).
+        items: [(msgtype, body, seq, kwargs)]; numbers are not consumed."""
+        t = self.sim.loop.time()
+        ents, blob = [], b""
+        for (msgtype, body, seq, kw) in items:
+            kw = dict(kw)
+            frame = refframer.build(msgtype, body, sender=kw.pop("sender", self.comp_id),
+                                    target=kw.pop("target", self.eut_comp_id), seq=seq, sending_time=fix_time(t), **kw)
+            sp = dict(spec or {})
+            sp.update(t=str(msgtype), seq=seq, pd=False)
+            ents.append(dict(evno=None, frame=frame, seq=seq, type=str(msgtype), pd=False, spec=sp, body=list(body),
+                             conn=self.n_connections))
+            blob += frame
+        ev = self.send_raw(blob, dict(t="burst", seq=None))
+        for e in ents:
+            e["evno"] = ev
+            self.sent.append(e)
+        return ents
 
     def close(self):
         if self.tr is not None:
